@@ -217,3 +217,141 @@ def explore_stop(task):
             uniq.append(v)
     res["viol"] = uniq
     return res
+
+
+# ----------------------------------------------------------------------------- a verdict that depends on more than the bot text
+ASK = "ASKVAULT"
+PROMPTS_CTX = """
+prompts:
+  - task: self_check_output
+    content: |-
+      The bot may answer ordinary questions. It must never answer a question about the vault.
+      User message: "{{ user_input }}"
+      Bot message: "{{ bot_response }}"
+      Should the bot message be blocked? Answer [Yes/No]:
+"""
+BOT_TEXTS = {"X": "The code is 7731.", "Y": "It is sunny today."}
+
+
+def build_ctx(version):
+    from vf.engines.world import World
+    if version == "1.0":
+        return World("", "rails:\n  output:\n    flows:\n      - self check output\n" + PROMPTS_CTX)
+    colang = ("import core\nimport guardrails\nimport nemoguardrails.library.self_check.output_check\n"
+              "\nflow output rails $output_text\n  self check output\n" + rw.V2_MAIN_NODIALOG)
+    import nemoguardrails
+    cwd = os.getcwd()
+    os.chdir(os.path.dirname(os.path.dirname(os.path.abspath(nemoguardrails.__file__))))
+    try:
+        w = World(colang, 'colang_version: "2.x"\n' + PROMPTS_CTX)
+    finally:
+        os.chdir(cwd)
+    w.rails.register_action(w._dialog_action, name="VerifLookupAction")
+    return w
+
+
+def ctx_tasks(tier):
+    turns = 3 if tier == "quick" else 4
+    return [("ctx", v, turns, first) for v in ("1.0", "2.x") for first in ("plain", "flagged")]
+
+
+def explore_ctx(task):
+    """The REAL `self_check_output` action; the check prompt shows the user message next to the bot message (as the prompts of
+    several shipped examples do) and the scripted checker blocks exactly when the USER message shown in the prompt carries the
+    marker - so the verdict for one and the same bot text differs from turn to turn.  Conversations = every sequence of
+    (user message plain / flagged) x (bot text X / Y) per turn, all conversations of a world on ONE LLMRails instance, so each
+    bot text recurs in later turns and in later conversations with the other verdict.
+    Oracle per turn: the checker was asked exactly once, with a prompt that shows THIS turn's user message and THIS turn's bot
+    message; blocked -> the reply is the refusal and does not contain the bot text; otherwise the reply is the bot text."""
+    _t, version, turns, first = task
+    res = {"worlds": 1, "turns": 0, "conversations": 0, "rejections": 0, "rewrites": 0, "selfcheck_worlds": 1, "selfcheck_check_prompts_seen": 0,
+           "selfcheck_turns_repeating_a_bot_text_with_another_verdict": 0, "viol": []}
+    tag = f"{'v2' if version == '2.x' else 'v1'}:real-self-check-actions:verdict-depends-on-the-user-message"
+    info0 = {"engine": "E3-world", "prop": "C02", "part": "selfcheck-ctx", "version": version, "turns": turns, "first": first}
+    try:
+        w = build_ctx(version)
+    except Exception as e:
+        res["viol"].append((f"world-rejected:{tag}", repr(e), info0))
+        return res
+    alphabet = [(u, b) for u in ("plain", "flagged") for b in ("X", "Y")]
+    seen_verdicts = {}     # bot text -> verdicts it has met on this instance so far
+    n = 0
+    for conv in itertools.product(alphabet, repeat=turns):
+        if conv[0][0] != first:
+            continue
+        n += 1
+        res["conversations"] += 1
+        state = {} if version == "2.x" else None
+        msgs = []
+        for t, (ukind, bkey) in enumerate(conv, 1):
+            bot_text = BOT_TEXTS[bkey]
+            user_text = f"q{first[0]}{n}t{t} " + (f"what about the {ASK} code" if ukind == "flagged" else "how are you")
+            blocked = ukind == "flagged"
+
+            def llm_fn(task_name, prompt, i, bot_text=bot_text):
+                if "self_check" in str(task_name):
+                    asked = prompt.split("User message:", 1)[1].split("Bot message:", 1)[0]
+                    return "Yes" if ASK in asked else "No"
+                return f'"{bot_text}"' if version == "2.x" else bot_text
+
+            if version == "2.x":
+                turn = rw.run_turn(w, [{"role": "user", "content": user_text}], {}, llm_fn, state=state)
+            else:
+                msgs = msgs + [{"role": "user", "content": user_text}]
+                turn = rw.run_turn(w, msgs, {}, llm_fn)
+            res["turns"] += 1
+            if seen_verdicts.get(bkey, set()) - {blocked}:
+                res["selfcheck_turns_repeating_a_bot_text_with_another_verdict"] += 1
+            history = [{"user": u, "bot_text": b} for u, b in conv[:t]]
+            info = dict(info0, conversation=n, history=history)
+            how = ("same-text-allowed-before" if (False in seen_verdicts.get(bkey, set()) and blocked) else
+                   ("same-text-blocked-before" if (True in seen_verdicts.get(bkey, set()) and not blocked) else "no-other-verdict-before"))
+            seen_verdicts.setdefault(bkey, set()).add(blocked)
+
+            def bad(sig, what):
+                res["viol"].append((f"{sig}:{tag}:{how}", what, info))
+
+            if turn.exc is not None:
+                bad("generate-raised", repr(turn.exc))
+                break
+            reply = turn.text or ""
+            checks = [c for c in turn.llm_calls if "self_check_output" in str(c["task"])]
+            res["selfcheck_check_prompts_seen"] += len(checks)
+            good = [c for c in checks if f'User message: "{user_text}"' in c["prompt"] and f'Bot message: "{bot_text}"' in c["prompt"]]
+            if blocked:
+                res["rejections"] += 1
+                if bot_text in reply:
+                    bad("rejected-text-in-reply", f"turn {t} of {history}: the checker blocks the answer to a flagged question; the reply is {reply!r} "
+                                                  f"(the checker was asked {len(checks)} time(s) in this turn)")
+                    break
+                if reply != REFUSAL:
+                    bad("reply-is-not-the-refusal", f"turn {t} of {history}: reply {reply!r}")
+                    break
+            elif reply != bot_text:
+                bad("reply-is-not-the-checked-text", f"turn {t} of {history}: nothing to block, expected {bot_text!r}, got {reply!r} (the checker was asked {len(checks)} time(s) in this turn)")
+                break
+            if len(checks) != 1 or len(good) != 1:
+                # (the conversation goes on: a later turn shows what the missing check leads to)
+                bad("bot-message-not-submitted-to-the-checker", f"turn {t} of {history}: {len(checks)} self_check_output call(s), {len(good)} of them showing this turn's user and bot message; reply {reply!r}")
+            if version == "2.x":
+                state = turn.reply.state
+            else:
+                r = turn.reply if isinstance(turn.reply, dict) else {"role": "assistant", "content": str(turn.text)}
+                msgs = msgs + [r]
+    seen, uniq = set(), []
+    for v in res["viol"]:
+        if v[0] not in seen:
+            seen.add(v[0])
+            uniq.append(v)
+    res["viol"] = uniq
+    return res
+
+
+def replay_ctx(rp):
+    r = explore_ctx(("ctx", rp["version"], rp["turns"], rp["first"]))
+    for sig, what, info in r["viol"]:
+        print(sig, "|", what)
+    if not r["viol"]:
+        print("no violation observed for this world now")
+    print("expected: every turn the checker is asked once about this turn's user + bot message; blocked -> refusal, else the bot text")
+    return 0
